@@ -760,6 +760,21 @@ func (e *kvElection) StopWithContext(ctx context.Context, opts StopOptions) erro
 		close(done)
 	}()
 
+	// notifyDemotedOnAbort runs OnDemote when the shutdown is abandoned: leadership
+	// has already been given up above, so the callback is owed even though the
+	// wait for background goroutines did not complete.
+	notifyDemotedOnAbort := func() {
+		if !wasLeader {
+			return
+		}
+		e.mu.RLock()
+		onDemote := e.onDemote
+		e.mu.RUnlock()
+		if onDemote != nil {
+			go onDemote()
+		}
+	}
+
 	select {
 	case <-done:
 	case <-time.After(timeout):
@@ -769,6 +784,7 @@ func (e *kvElection) StopWithContext(ctx context.Context, opts StopOptions) erro
 				zap.Duration("timeout", timeout),
 			)...,
 		)
+		notifyDemotedOnAbort()
 		return fmt.Errorf("shutdown timeout exceeded: %v", timeout)
 	case <-ctx.Done():
 		log := e.getLogger()
@@ -777,6 +793,7 @@ func (e *kvElection) StopWithContext(ctx context.Context, opts StopOptions) erro
 				zap.Error(ctx.Err()),
 			)...,
 		)
+		notifyDemotedOnAbort()
 		return ctx.Err()
 	}
 
